@@ -33,7 +33,44 @@ def garbage_typelevel(types, rng, tier):
             if TL.leaf_count(T.tup(t["schema"])) > 900:
                 continue  # huge arrays: a full iteration is (correctly) longer than the item cap of this run
             c.add(t["tid"], f"iter {rng.choice([0, 1, 2, 3])} {spec} {it_target} {cap} 1 0 1000", None, why, "iterroot")
+        # VALID roots with targets that cannot hold even the root's own key, every state length: the iterator reports
+        # error items and terminates, it never indexes outside its state
+        s = T.tup(t["schema"])
+        if TL.leaf_count(s) <= 900:
+            nodes = [p for p in T.all_nodes(s, limit=40) if len(p) <= 4]
+            for p in (nodes if tier != "quick" else rng.sample(nodes, min(len(nodes), 10))):
+                for D in [d for d in (1, 2, 3, 4) if d >= len(p)][:2 if tier == "quick" else 4]:
+                    for target, cap in (("idx", 0), ("idx", 1), ("idx", max(len(p) - 1, 0)), ("path47", len(p)), ("hpath47", 3),
+                                        ("json", 2)):
+                        c.add(t["tid"], f"iter {D} {T.render(s, p, 'indices')} {target} {cap} 2 0 1000", None,
+                              f"iteration rooted at {p} of {t['label']} into a {target} target of capacity {cap}", "iterroot:smallcap")
+        # near-valid JSON paths: the written form of a node with its tail cut / a delimiter dropped or doubled
+        if TL.rep_ok(s, "json"):
+            for p in T.all_nodes(s, limit=12):
+                txt = T.json_text(s, p)
+                quoted = "".join(f"['{k}']" for k in T.key_strs(s, p))
+                for base in (txt, quoted):
+                    for k in range(len(base) + 1):
+                        for mut in (base[:k], base[:k] + "'", base[:k] + "['", base[:k] + "é", base[:k] + "]" + base[k:]):
+                            c.add(t["tid"], f"trav J:{enc(mut)} -", None, f"mutilated JSON path {mut!r} on {t['label']}", "trav:json")
     return c
+
+
+def splitter_cases(tier):
+    """every short string over the delimiters through both splitters (a key conversion must return for every string)"""
+    import itertools
+    out = []
+    alpha = [".", "[", "]", "'", "a", "0", "é"]
+    for L in range(0, 5 if tier == "quick" else 7):
+        for tup in itertools.product(alpha, repeat=L):
+            t = "".join(tup)
+            out.append(f"st j{len(out)} jsplit {enc(t)}")
+    for L in range(0, 4 if tier == "quick" else 6):
+        for tup in itertools.product(["/", "é", "a", "😀"], repeat=L):
+            t = "".join(tup)
+            for sep in ("/", "é", "😀"):
+                out.append(f"st s{len(out)} split {ord(sep)} {enc(t)}")
+    return out
 
 
 def run(rep, rng, tier):
@@ -48,7 +85,10 @@ def run(rep, rng, tier):
         pk.append(f"pk p{i} word {w} into_lsb ; from_lsb ; len ; cap ; empty")
         pk.append(f"pk q{i} bits_for {rng.choice([0, 2 ** 64 - 1, 2 ** 63, rng.randrange(2 ** 64)])}")
     r3 = paired_run(rep, pk, lambda case, out: ("panic" if "panic" in out or "bad-op" in out else None), lambda c_, o: ("pk", c_))
-    total = [x for x in (r, r2, r3) if x]
+    sp = splitter_cases(tier)
+    r4 = paired_run(rep, sp, lambda case, out: (f"splitter gave {out!r}" if out in ("panic", "bad-op") else None),
+                    lambda c_, o: ("st", c_))
+    total = [x for x in (r, r2, r3, r4) if x]
     rep.coverage["evaluations"] = sum(x["n"] for x in total) - c.n_decl - g.n_decl
     rep.coverage["distinct_nontrivial"] = sum(x["distinct"] for x in total)
     rep.coverage["model_disagreements"] = sum(x["diffs"] for x in total)
@@ -60,7 +100,7 @@ def run(rep, rng, tier):
         if not ok:
             rep.violation("proof", {"what": "release harness does not build", "log": msg}, no_input=True)
         else:
-            for lines, res in ((c.lines, r), (g.lines, r2), (pk, r3)):
+            for lines, res in ((c.lines, r), (g.lines, r2), (pk, r3), (sp, r4)):
                 rc, rel, err = run_lines(harness_bin("release"), lines)
                 for l in lines:
                     cid = l.split(" ", 2)[1]
